@@ -102,7 +102,7 @@ theorem deleteA_sublist (fuel : Nat) : ∀ (busy : List Id) (s : State) (id : Id
   | succ fuel ih =>
     intro busy s id s' hi hb h
     have hb' : BossOK (markBusy busy id) s := bossOK_mono hb (fun k hk => (mem_markBusy busy id k).2 (Or.inr hk))
-    obtain ⟨s0, hcb, h0⟩ := deleteA_decomp (deleteA_spec fuel) hi hb h
+    obtain ⟨s0, _, hcb, h0⟩ := deleteA_decomp (deleteA_spec fuel) hi hb h
     obtain ⟨c1, _⟩ := cascadeBoss_spec (deleteA_spec fuel) hi hb' hcb
     obtain ⟨_, d2, _⟩ := core_deleteA0 c1 h0
     have hs0 : List.Sublist s0.a s.a := by
@@ -136,6 +136,9 @@ theorem beforeDeleteA_noPanic {s : State} {id : Id} (h : [] ∉ evRoles (s.a.loo
       · cases hp
       · cases hp
     · simp only [pure, Except.pure] at hp; cases hp
+
+theorem chiefCheck_noPanic {s : State} {id : Id} : chiefCheck s id ≠ .error .panic := by
+  unfold chiefCheck; split <;> simp
 
 theorem cascadeLoop_noPanic {del : State → Id → Except Err State} {busy : List Id} {fuel : Nat}
     (hd : ∀ s j s', InvCore s → BossOK busy s → del s j = .ok s' → DelPost busy s s' j ∧ List.Sublist s'.a s.a)
@@ -191,11 +194,15 @@ theorem deleteA_noPanic (fuel : Nat) : ∀ (busy : List Id) (s : State) (id : Id
         cases hcode : e.code with
         | none =>
           simp only [Option.isSome_none, Bool.false_eq_true, if_false]
+          cases hcc : chiefCheck s id with
+          | error x => simp only; intro hx; cases hx; exact chiefCheck_noPanic hcc
+          | ok u0 =>
+          simp only
           cases hcb : cascadeBoss (deleteA fuel) busy s id with
           | error x => simp only; intro hx; cases hx; exact hfirst hcb
           | ok s0 =>
             simp only
-            obtain ⟨_, _, _, _, _, _, c7, c8⟩ := cascadeBoss_spec (deleteA_spec fuel) hi hb' hcb
+            obtain ⟨_, _, _, _, _, c6, c7, c8⟩ := cascadeBoss_spec (deleteA_spec fuel) hi hb' hcb
             have hold0 : s0.a.lookup id = some e := by
               rw [c8 id ((mem_markBusy busy id id).2 (Or.inl rfl))]; exact hold
             cases hbd : beforeDeleteA s0 id with
@@ -203,6 +210,9 @@ theorem deleteA_noPanic (fuel : Nat) : ∀ (busy : List Id) (s : State) (id : Id
               simp only; intro hx; cases hx
               exact beforeDeleteA_noPanic (by simpa [hold0, evRoles] using hroles) hbd
             | ok tx =>
+              simp only
+              rw [chiefCheck_mono (t := { tx with uColour := uniqueBeforeDelete (evColour (some e)) tx.uColour }) hcc
+                (fun j e' hj => c6 j e' (by rw [← beforeDeleteA_a hbd]; exact hj))]
               simp only
               rw [cascadeBoss_skip (s0 := s0)
                 (t := { tx with uColour := uniqueBeforeDelete (evColour (some e)) tx.uColour })
@@ -217,11 +227,15 @@ theorem deleteA_noPanic (fuel : Nat) : ∀ (busy : List Id) (s : State) (id : Id
               | ok s2 => simp
         | some c =>
           simp only [Option.isSome_some, if_true]
+          cases hcc : chiefCheck s id with
+          | error x => simp only; intro hx; cases hx; exact chiefCheck_noPanic hcc
+          | ok u0 =>
+          simp only
           cases hcb : cascadeBoss (deleteA fuel) busy s id with
           | error x => simp only; intro hx; cases hx; exact hfirst hcb
           | ok s0 =>
             simp only
-            obtain ⟨_, _, _, _, _, _, c7, c8⟩ := cascadeBoss_spec (deleteA_spec fuel) hi hb' hcb
+            obtain ⟨_, _, _, _, _, c6, c7, c8⟩ := cascadeBoss_spec (deleteA_spec fuel) hi hb' hcb
             have hold0 : s0.a.lookup id = some e := by
               rw [c8 id ((mem_markBusy busy id id).2 (Or.inl rfl))]; exact hold
             cases hbd : beforeDeleteA s0 id with
@@ -231,6 +245,9 @@ theorem deleteA_noPanic (fuel : Nat) : ∀ (busy : List Id) (s : State) (id : Id
             | ok t =>
               simp only
               have hta : t.a = s0.a := beforeDeleteA_a hbd
+              rw [chiefCheck_mono (t := { t with uCode := uniqueBeforeDelete (evCode (some e)) t.uCode, p := t.p.cleanFwd t.bEx id }) hcc
+                (fun j e' hj => c6 j e' (by rw [← hta]; exact hj))]
+              simp only
               rw [cascadeBoss_skip (s0 := s0)
                 (t := { t with uCode := uniqueBeforeDelete (evCode (some e)) t.uCode, p := t.p.cleanFwd t.bEx id }) hta c7]
               simp only
@@ -243,6 +260,9 @@ theorem deleteA_noPanic (fuel : Nat) : ∀ (busy : List Id) (s : State) (id : Id
               | ok tx =>
                 simp only
                 have htxa : tx.a = s0.a := (beforeDeleteA_a hbd2).trans hta
+                rw [chiefCheck_mono (t := { tx with uColour := uniqueBeforeDelete (evColour (some e)) tx.uColour }) hcc
+                  (fun j e' hj => c6 j e' (by rw [← htxa]; exact hj))]
+                simp only
                 rw [cascadeBoss_skip (s0 := s0)
                   (t := { tx with uColour := uniqueBeforeDelete (evColour (some e)) tx.uColour })
                   (show tx.a = s0.a from htxa) c7]
